@@ -99,6 +99,9 @@ type FN struct {
 	stopAfterExecs atomic.Int64
 	// DBPath: the node's configured db_path ("" = the repository's default). Set it in the prepare hook of NewFNPrepared.
 	DBPath string
+	// DABlockTime: the node's configured DA block time (0 = one hour: nothing in the node paces itself by it during a
+	// scenario). Set it in the prepare hook of NewFNPrepared.
+	DABlockTime time.Duration
 }
 
 // NewFN starts a full node for the produced chain. rootDir may be "" (no cache directory: clean restarts then lose the caches).
@@ -137,6 +140,9 @@ func NewFNPrepared(ctx context.Context, p *Produced, rootDir string, prepare fun
 
 func (f *FN) start(reuse *Node) error {
 	opts := NodeOpts{Aggregator: false, CustomPayload: f.P.Spec.CustomPayload, InitialHeight: f.P.Spec.Initial, DABlockTime: time.Hour, BlockTime: time.Hour, RootDir: f.RootDir, DAStartHeight: 1, DBPath: f.DBPath}
+	if f.DABlockTime > 0 {
+		opts.DABlockTime = f.DABlockTime
+	}
 	dsp := NewMemDS(f.Im)
 	dsp.OnWrite = func(rec WriteRec) {
 		// the stop request arrives right after the n-th application from now made its state durable
